@@ -289,6 +289,12 @@ func (r *Raft) onInstallSnapRequest(req *installSnapReq, c *conn) (rpcResult, er
 	r.setState(Follower)
 	r.setLeader(req.src)
 
+	// a stale or duplicate request: everything the snapshot covers is already
+	// committed here. installing it would move snapshot, commit index and log backwards
+	if req.lastIndex <= r.commitIndex {
+		return drain(success, nil)
+	}
+
 	// store snapshot
 	sink, err := r.snaps.new(req.lastIndex, req.lastTerm, req.lastConfig)
 	if err != nil {
